@@ -570,12 +570,16 @@ func (g *Global) genVCpass(fn *ssa.Function, contract *Contract, C *Ctx) (vc *Fn
 	fr.entryA = A0
 	vc.EntryHeap = fr.entryH
 	// parameters
-	for _, p := range fn.Params {
+	for i, p := range fn.Params {
 		n := "p_" + mangle(p.Name())
 		tr.raw(fmt.Sprintf("(declare-const %s %s)", n, C.sortOf(p.Type())))
 		v := Val{T: n, Ty: p.Type()}
 		fr.vals[p] = v
 		fr.params[p.Name()] = v
+		if contract != nil && i < len(contract.Params) {
+			// a contract shared by several functions (closures of one type) names the parameters itself
+			fr.params[contract.Params[i]] = v
+		}
 		tr.assume("true", tr.wf(v))
 		tr.assume("true", tr.belowAlloc(v, A0))
 		vc.Params = append(vc.Params, v)
